@@ -206,6 +206,25 @@ def run(c) -> CaseResult:
             res.fail(f"C15.value.no_grad[{rtag}]", f"under torch.no_grad() the transformed module differs from the hand-quantised reference (fwd={fwd}, bwd={bwd})\n{src}")
     except Exception as e:  # noqa: BLE001
         res.fail(exc_bucket("C15.raises.no_grad", e).replace("outside-library", "via-dynamo")[:300], f"{type(e).__name__}: {str(e)[:300]}\n{src}")
+    # a second call of the same transformed module with another batch size (TorchDynamo recompiles: the backend runs again)
+    if c["root"] == "program" and not any(s_["op"] == "shape" and s_["kind"] in ("flat", "view") for s_ in prog["stmts"]):
+        prog_b = dict(prog, B=prog["B"] + 1)
+        inputs_b = dsl.make_inputs(prog_b, c["seed"] + 3)
+        try:
+            fb, frb = prep(inputs_b, rg), prep(inputs_b, rg)
+            mode_b = dsl.quantised(dsl.Plain, fwd, bwd)
+            mode_b.begin({})
+            with patch("torch.randint", pinned):
+                yb = call(qm, fb)
+                upb = torch.ones_like(yb)
+                gb = torch.autograd.grad(yb, [fb[k] for k in FLOAT_INPUTS if k in fb and fb[k].requires_grad] + list(P.values()), upb, allow_unused=True)
+                yrb = dsl.evaluate(prog_b, dsl.named_tensors(qm), frb, mode_b)
+                grb = torch.autograd.grad(yrb, [frb[k] for k in FLOAT_INPUTS if k in frb and frb[k].requires_grad] + list(P.values()), upb, allow_unused=True)
+            if not bitequal(yb.detach(), yrb.detach()) or not all(bitequal(a, b) for a, b in zip(gb, grb)):
+                res.fail(f"C15.second-call.other-batch-size[{rtag}]", f"a second call with batch size {prog_b['B']} differs from the hand-quantised reference (the first call with {prog['B']} agreed)\n{src}")
+            res.labels.append("second-call-other-batch-size")
+        except Exception as e:  # noqa: BLE001
+            res.fail(exc_bucket("C15.raises.second-call", e).replace("outside-library", "via-dynamo")[:300], f"{type(e).__name__}: {str(e)[:300]}\n{src}")
     # lossless format: bit-identical to the untransformed module (no harness arithmetic at all)
     if lossless(c["fwd"]) and lossless(c["bwd"]) and c["via"] == "simulate_format":
         f0 = prep(inputs, rg)
